@@ -55,9 +55,9 @@ def activityTypesGo : List String :=
 def actorTypesGo : List String := ["Application", "Group", "Organization", "Person", "Service"]
 
 /-- the type-name tests in front of the activity and actor comparisons of ItemsEqual: the generic name
-(compared exactly) or a member of the family list (compared ignoring case) -/
-def isActivityDispatch (wt : Str) : Bool := wt == Flatten.ascii "Activity" || Flatten.typeIn activityTypesGo wt
-def isActorDispatch (wt : Str) : Bool := wt == Flatten.ascii "Actor" || Flatten.typeIn actorTypesGo wt
+or a member of the family list, both compared ignoring case -/
+def isActivityDispatch (wt : Str) : Bool := Flatten.typeIn ["Activity"] wt || Flatten.typeIn activityTypesGo wt
+def isActorDispatch (wt : Str) : Bool := Flatten.typeIn ["Actor"] wt || Flatten.typeIn actorTypesGo wt
 
 /-- `itemsNeedSwapping` -/
 def needSwap (a b : Item) : Bool :=
